@@ -271,6 +271,11 @@ def run(spec):
   w.stack_of = {}
   w.ar_of = {}
   w.keep = []
+  if spec.get('ping_ticks'):
+    # the thriftmux ping loop sleeps random.randint(30, 40) seconds: script it to a few ticks so that keep-alive pings
+    # fall inside the run (and inside slow writes)
+    pt = list(spec['ping_ticks'])
+    w.rand_hook = lambda kind, a, b: (rng.choice(pt) * V.TICK) if (kind, a, b) == ('randint', 30, 40) else rng.randint(a, b)
   _install_hooks()
   try:
     return _run(spec, w)
@@ -433,6 +438,15 @@ def _run(spec, w):
         'malformed': [str(m) for m in srv.malformed],
         'frames': [[ticks(t), c, ty, tg, ln] for t, c, ty, tg, ln in srv.frames],
     }
+  if spec.get('want_streams'):
+    # per connection: the buffers the client handed to the socket (in call order) and the bytes that reached the peer
+    conns = []
+    for port, srv in servers.items():
+      for c in srv.conns:
+        conns.append({'port': port, 'cid': c.cid,
+                      'writes': [list(d) for (t, p, ci, d) in w.wire if p == port and ci == c.cid],
+                      'stream': list(c.stream), 'closed': bool(c.closed_by_client or c.closed_by_peer)})
+    trace['conns'] = conns
   trace['crashes'] = list(w.crashes)
   trace['events'] = [list(x) for x in w.trace]
   trace['netlog'] = [[ticks(x[0])] + [str(y) for y in x[1:]] for x in w.log]
